@@ -365,3 +365,133 @@ class DataDedupKey(Contract):
             h.oblige("dedup.keys-differ-only-if-something-differs",
                      z3.Not(z3.And([sa[k].u == sb[k].u for k in
                                     ("address", "shape", "layout", "dtype")])))
+
+
+# {{{ native key pairs (bounded stand-in for the external KeyBuilder half)
+
+KEY_CLASSES = ["Placeholder", "SizeParam", "DataWrapper", "IndexLambda",
+               "Stack", "Concatenate", "Roll", "AxisPermutation", "Reshape",
+               "BasicIndex", "AdvancedIndexInContiguousAxes",
+               "AdvancedIndexInNoncontiguousAxes", "Einsum", "CSRMatmul",
+               "DictOfNamedArrays", "NamedArray", "DistributedRecv",
+               "DistributedSendRefHolder", "NamedCallResult", "Call",
+               "FunctionDefinition"]
+
+
+def native_key_pairs(tier, seed):
+    """Real PytatoKeyBuilder (pytools' KeyBuilder underneath -- the external
+    half that the deductive part only *assumes* injective) on real sample
+    nodes of every class and on single-field variants, under two histories:
+    a fresh builder, and a builder that has keyed the nodes' children before
+    (the builder caches digests on the objects it has seen).
+      unequal nodes  => different keys   (both histories)
+      an equal copy  => the same key
+    Bounded: the nodes are samples.  Labelled as such in the evidence."""
+    import dataclasses as dc
+
+    from pytato.analysis import PytatoKeyBuilder
+    from pytato.array import Array
+    from pyvc.replay_nodes import sample_node, variants
+    failures, n = [], 0
+
+    def children(x):
+        out = []
+        if not dc.is_dataclass(x):
+            return out
+        for f in dc.fields(x):
+            try:
+                v = getattr(x, f.name)
+            except Exception:  # noqa: BLE001
+                continue
+            vs = v if isinstance(v, (tuple, list)) else (
+                list(v.values()) if hasattr(v, "values") else [v])
+            out += [c for c in vs if isinstance(c, Array)]
+        return out
+    for cls in KEY_CLASSES:
+        for bi, base in enumerate(sample_node(cls)):
+            fields = [f.name for f in dc.fields(base)
+                      if f.name != "non_equality_tags"]
+            nested = []
+            for f in fields:
+                v = getattr(base, f)
+                if dc.is_dataclass(v) and not isinstance(v, Array) and \
+                        type(v).__module__.startswith("pytato"):
+                    nested += [f"{f}.{g.name}" for g in dc.fields(v)
+                               if g.name != "non_equality_tags"]
+            try:
+                try:
+                    same = dc.replace(base)
+                except TypeError:
+                    same = base      # (class with a constructor of its own)
+                k0 = PytatoKeyBuilder()(base)
+                n += 1
+                if PytatoKeyBuilder()(same) != k0:
+                    failures.append(dict(
+                        key=f"{cls}#{bi}|equal-copy",
+                        what=f"an equal copy of a {cls} gets another key"))
+            except Exception as e:  # noqa: BLE001
+                failures.append(dict(key=f"{cls}#{bi}|keyable",
+                                     what=f"{type(e).__name__}: {e}"))
+                continue
+            for field in [*fields, *nested]:
+                for vi, other in enumerate(variants(base, field)):
+                    if not (base != other):
+                        continue
+                    for hist in ("fresh", "children-first"):
+                        kb = PytatoKeyBuilder()
+                        if hist == "children-first":
+                            for c in [*children(base), *children(other)]:
+                                kb(c)
+                        n += 1
+                        try:
+                            collide = kb(base) == kb(other)
+                        except Exception as e:  # noqa: BLE001
+                            failures.append(dict(
+                                key=f"{cls}.{field}#{vi}|{hist}|keyable",
+                                what=f"{type(e).__name__}: {e}"))
+                            continue
+                        if collide:
+                            failures.append(dict(
+                                key=f"{cls}.{field}#{vi}|{hist}",
+                                what=f"two {cls} nodes differing only in "
+                                     f"'{field}' compare unequal but get the "
+                                     f"same persistent key (history: {hist})",
+                                replay_src=NATIVE_PAIR_REPLAY.format(
+                                    cls=cls, field=field, hist=hist)))
+    return dict(name="native-key-pairs", kind="bounded", evaluations=n,
+                failures=failures,
+                note="real PytatoKeyBuilder on sample nodes x single-field "
+                     "variants x {fresh builder, children keyed first}")
+
+
+NATIVE_PAIR_REPLAY = '''
+import sys
+sys.path.insert(0, "/verif")
+import dataclasses as dc
+from pyvc.replay_nodes import sample_node, variants
+from pyvc.replaylib import reproduced, not_reproduced
+from pytato.analysis import PytatoKeyBuilder
+from pytato.array import Array
+cls, field, hist = {cls!r}, {field!r}, {hist!r}
+def children(x):
+    out = []
+    for f in dc.fields(x):
+        v = getattr(x, f.name)
+        vs = v if isinstance(v, (tuple, list)) else (list(v.values()) if hasattr(v, "values") else [v])
+        out += [c for c in vs if isinstance(c, Array)]
+    return out
+for base in sample_node(cls):
+    for other in variants(base, field):
+        if not (base != other):
+            continue
+        kb = PytatoKeyBuilder()
+        if hist == "children-first":
+            for c in [*children(base), *children(other)]:
+                kb(c)
+        if kb(base) == kb(other):
+            reproduced(f"two {{cls}} nodes differing only in '{{field}}' are unequal but "
+                       f"share a persistent key (history: {{hist}}):\\\\n  {{base!r:.200}}\\\\n  {{other!r:.200}}")
+not_reproduced("no sampled pair shares a key")
+'''
+
+# }}}
